@@ -118,14 +118,42 @@ def cases(T):
         R_ = M(O['m'], 4); R3 = [r[:3] for r in R_[:3]]
         return meq(mm(R3, transp(R3)), ident(3), 'R*Rt') + [('right-handed: det == +1', eq(det(R3), rz(1)))] + \
             [('affine row/col', AND(*[eq(R_[i][3], rz(0)) for i in range(3)] + [eq(R_[3][j], rz(0)) for j in range(3)] + [eq(R_[3][3], rz(1))]))]
-    add('O2.alignZAxisWithTargetDir_frame', 'w_alignz{T}', [Out('m', 16), In('t', 3), In('u', 3)], frame, core=False, budget=280, max_paths=300, timeout_ms=15000,
-        desc='alignZAxisWithTargetDir: orthonormal right-handed frame on every path, including zero / parallel target and up directions', bounds='all real directions incl. zero and parallel', tier='thorough')
+    add('O2.alignZAxisWithTargetDir_frame', 'w_alignz{T}', [Out('m', 16), In('t', 3), In('u', 3)], frame, budget=280, max_paths=300, timeout_ms=15000,
+        desc='alignZAxisWithTargetDir: orthonormal right-handed frame on every path, including zero / parallel target and up directions', bounds='all real directions incl. zero and parallel', tier='quick')
     def zrow(I, O, X):
         R_ = M(O['m'], 4); t = I['t']; z = R_[2][:3]
         c = cross3(z, t)
         return [('z row parallel to target', OR(eq(norm2(t), rz(0)), AND(*[eq(c[i], rz(0)) for i in range(3)] + [le(rz(0), rdot(z, t))])))]
-    add('O2.alignZAxisWithTargetDir_zaxis', 'w_alignz{T}', [Out('m', 16), In('t', 3), In('u', 3)], zrow, core=False, budget=280, max_paths=300, timeout_ms=15000,
-        desc='alignZAxisWithTargetDir: the z axis maps onto the target direction (same sense) when the target is non-zero', tier='thorough')
+    add('O2.alignZAxisWithTargetDir_zaxis', 'w_alignz{T}', [Out('m', 16), In('t', 3), In('u', 3)], zrow, budget=280, max_paths=300, timeout_ms=15000,
+        desc='alignZAxisWithTargetDir: the z axis maps onto the target direction (same sense) when the target is non-zero', tier='quick')
+    def frame(I, O, X):
+        m = M(O['m'], 4); t = I['t']; Rm = [r[:3] for r in m[:3]]
+        cl = [('row %d has unit length' % i, eq(norm2(Rm[i]), rz(1))) for i in range(3)]
+        cl += [('rows %d and %d are orthogonal' % (i, j), eq(rdot(Rm[i], Rm[j]), rz(0))) for i in range(3) for j in range(i + 1, 3)]
+        cl += [('right-handed (row0 x row1 == row2) [%d]' % i, eq(cross3(Rm[0], Rm[1])[i], Rm[2][i])) for i in range(3)]
+        cz = cross3(Rm[2], t)
+        cl += [('z row parallel to the target, same sense', AND(*[eq(cz[i], rz(0)) for i in range(3)] + [le(rz(0), rdot(Rm[2], t))]))]
+        cl += [('affine structure [%d]' % i, AND(eq(m[i][3], rz(1 if i == 3 else 0)), eq(m[3][i], rz(1 if i == 3 else 0)))) for i in range(4)]
+        return cl
+    def nodz(sym):
+        from props import contracts
+        contracts.install(sym, sym.m); sym.check_divzero = False
+    add('O2.alignZAxisWithTargetDir_parallel_up', 'w_alignz_parallel{T}', [Out('m', 16), In('t', 3), Val('lam')], frame, pre=lambda I: [ne(norm2(I['t']), rz(0))] + [AND(R(v).n >= -64, R(v).n <= 64) for v in I['t'] + [I['lam']]],
+        setup=nodz, allow_divzero=True, budget=240, max_paths=400, timeout_ms=15000, nvalid=0,
+        desc='alignZAxisWithTargetDir with the up vector exactly parallel, anti-parallel or zero (up = lambda * target, every lambda): the result is still a right-handed orthonormal frame whose z row is the target direction - both fallback axes included',
+        bounds='all non-zero targets and all lambda in [-64, 64]')
+    def rotup(I, O, X):
+        m = M(O['m'], 4); f = I['f']; t = I['t']; Rm = [r[:3] for r in m[:3]]
+        cl = [('row %d has unit length' % i, eq(norm2(Rm[i]), rz(1))) for i in range(3)]
+        cl += [('rows %d and %d are orthogonal' % (i, j), eq(rdot(Rm[i], Rm[j]), rz(0))) for i in range(3) for j in range(i + 1, 3)]
+        img = vm(f, Rm); c = cross3(img, t)
+        cl += [('from is carried onto the direction of to', AND(*[eq(c[i], rz(0)) for i in range(3)] + [le(rz(0), rdot(img, t))]))]
+        return cl
+    add('O2.rotationMatrixWithUpDir_parallel_up', 'w_rotupdir_parallel{T}', [Out('m', 16), In('f', 3), In('t', 3), Val('lam')], rotup,
+        pre=lambda I: [ne(norm2(I['t']), rz(0)), ne(norm2(I['f']), rz(0))] + [AND(R(v).n >= -64, R(v).n <= 64) for v in I['t'] + I['f'] + [I['lam']]],
+        setup=nodz, allow_divzero=True, budget=400, max_paths=2000, timeout_ms=20000, nvalid=0, core=False,
+        desc='rotationMatrixWithUpDir with the up vector parallel to toDir (up = lambda * toDir): an orthonormal matrix carrying fromDir onto the direction of toDir',
+        bounds='all non-zero from/to and all lambda in [-64, 64]')
     return cs
 
 
@@ -138,4 +166,4 @@ def build(chk):
     chk.assumptions += ['sin/cos of an argument are a pair of reals with s^2 + c^2 = 1 (one pair per distinct argument term); the claim uses the same pair',
                         'sqrt(x) is the non-negative real y with y*y = x']
     chk.outside += ['angles over many periods (libm periodicity is not repo code)', 'firstFrame/nextFrame/lastFrame (acos; not attempted)',
-                    'rotationMatrix(from,to) (see C10 setRotation)', 'frame builders are thorough-tier, budgeted (nested square roots)']
+                    'rotationMatrix(from,to) (see C10 setRotation)', 'computeLocalFrame, addOffset, computeRSMatrix: not attempted']
